@@ -80,12 +80,12 @@ theorem Paired.mono_peer {me peer peer' : Side} (h : ∀ t, t ∈ peer.held → 
 
 /-- receiving a message: held only grows; listed tunnels are old or (for an accepted reply) the initiator
 tunnel whose mirror the reply promises; everything sent out is promised by the new state -/
-theorem receive_spec (me peer : Side) (fresh : Nat) (m : Msg) (hm : msgOk peer m)
+theorem receive_spec (me peer : Side) (ridx : Nat) (m : Msg) (hm : msgOk peer m)
     (hp : ∀ t ∈ me.tunnels, t.init = true → t.mirror ∈ peer.held) :
-    let r := me.receive fresh m
+    let r := me.receive ridx m
     (∀ t, t ∈ me.held → t ∈ r.1.held) ∧
     (∀ t ∈ r.1.tunnels, t.init = true → t.mirror ∈ peer.held) ∧
-    (∀ o ∈ r.2.1, msgOk r.1 o) ∧ r.1.inbox = me.inbox ∧ r.1.addr = me.addr ∧ r.1.swaps = me.swaps := by
+    (∀ o ∈ r.2, msgOk r.1 o) ∧ r.1.inbox = me.inbox ∧ r.1.addr = me.addr ∧ r.1.swaps = me.swaps := by
   cases m with
   | m1 hs idx =>
     simp only [Side.receive]
@@ -93,13 +93,15 @@ theorem receive_spec (me peer : Side) (fresh : Nat) (m : Msg) (hm : msgOk peer m
     · rename_i t ht
       refine ⟨fun t h => h, hp, ?_, rfl, rfl, rfl⟩
       intro o ho
-      simp at ho; subst ho
-      have hmem := List.mem_of_find?_eq_some ht
-      have hprop := List.find?_some ht
-      simp at hprop
-      have : ({ loc := t.loc, rem := t.rem, hs := hs, init := false } : Tun) = t := by
-        cases t; simp_all
-      simp only [msgOk, this, Side.held, List.mem_append]; left; exact hmem
+      by_cases hinit : t.init = true
+      · simp [hinit] at ho
+      · simp [hinit] at ho; subst ho
+        have hmem := List.mem_of_find?_eq_some ht
+        have hprop := List.find?_some ht
+        simp at hprop
+        have : ({ loc := t.loc, rem := t.rem, hs := hs, init := false } : Tun) = t := by
+          cases t; simp_all
+        simp only [msgOk, this, Side.held, List.mem_append]; left; exact hmem
     · have inst : ∀ (t0 : Tun), t0.init = false →
           (∀ t, t ∈ me.held → t ∈ (me.install t0).held) ∧
           (∀ t ∈ (me.install t0).tunnels, t.init = true → t.mirror ∈ peer.held) := by
@@ -109,15 +111,9 @@ theorem receive_spec (me peer : Side) (fresh : Nat) (m : Msg) (hm : msgOk peer m
         rcases tunnels_install me t0 t ht with e | h
         · subst e; simp [h0] at hi
         · exact hp t h hi
-      split
-      · split
-        · exact ⟨fun t h => h, hp, by simp, rfl, rfl, rfl⟩
-        · refine ⟨(inst _ rfl).1, (inst _ rfl).2, ?_, by simp, by simp, by simp⟩
-          intro o ho; simp at ho; subst ho
-          exact held_install_new me _
-      · refine ⟨(inst _ rfl).1, (inst _ rfl).2, ?_, by simp, by simp, by simp⟩
-        intro o ho; simp at ho; subst ho
-        exact held_install_new me _
+      refine ⟨(inst _ rfl).1, (inst _ rfl).2, ?_, by simp, by simp, by simp⟩
+      intro o ho; simp at ho; subst ho
+      exact held_install_new me _
   | m2 hs r i =>
     simp only [Side.receive]
     split
@@ -173,8 +169,8 @@ theorem paired_inbox (me peer : Side) (m : Msg) (hm : msgOk peer m) (pm : Paired
 /-- delivery of message `k` of `me`'s inbox -/
 theorem step_inv_side (me peer : Side) (fresh : Nat) (pm : Paired me peer) (pp : Paired peer me)
     (k : Nat) (m : Msg) (hk : me.inbox[k]? = some m) :
-    Paired (me.receive fresh m).1 { peer with inbox := peer.inbox ++ (me.receive fresh m).2.1 } ∧
-    Paired { peer with inbox := peer.inbox ++ (me.receive fresh m).2.1 } (me.receive fresh m).1 := by
+    Paired (me.receive fresh m).1 { peer with inbox := peer.inbox ++ (me.receive fresh m).2 } ∧
+    Paired { peer with inbox := peer.inbox ++ (me.receive fresh m).2 } (me.receive fresh m).1 := by
   have hm : msgOk peer m := pm.2 m (List.mem_of_getElem? hk)
   have sp := receive_spec me peer fresh m hm pm.1
   dsimp only at sp
@@ -200,15 +196,15 @@ theorem step_inv_side (me peer : Side) (fresh : Nat) (pm : Paired me peer) (pp :
 theorem step_inv (s : St) (st : Step) (h : Inv s) : Inv (s.step st) := by
   obtain ⟨hx, hy⟩ := h
   cases st with
-  | start onX =>
+  | start onX hs idx =>
     cases onX <;> simp only [St.step, St.get, St.set, Bool.not_true, Bool.not_false, if_true, if_false, Bool.false_eq_true]
     · split
       · exact ⟨hx, hy⟩
-      · have := paired_inbox s.x s.y (.m1 s.fresh (s.fresh + 1)) trivial hx hy
+      · have := paired_inbox s.x s.y (.m1 hs idx) trivial hx hy
         exact ⟨⟨this.1.1, this.1.2⟩, ⟨this.2.1, this.2.2⟩⟩
     · split
       · exact ⟨hx, hy⟩
-      · have := paired_inbox s.y s.x (.m1 s.fresh (s.fresh + 1)) trivial hy hx
+      · have := paired_inbox s.y s.x (.m1 hs idx) trivial hy hx
         exact ⟨⟨this.2.1, this.2.2⟩, ⟨this.1.1, this.1.2⟩⟩
   | resend onX =>
     cases onX <;> simp only [St.step, St.get, St.set, Bool.not_true, Bool.not_false, if_true, if_false, Bool.false_eq_true]
@@ -226,17 +222,17 @@ theorem step_inv (s : St) (st : Step) (h : Inv s) : Inv (s.step st) := by
     cases onX <;> simp only [St.step, St.get, St.set, if_true, if_false, Bool.false_eq_true]
     · exact ⟨⟨hx.1, hx.2⟩, ⟨hy.1, hy.2⟩⟩
     · exact ⟨⟨hx.1, hx.2⟩, ⟨hy.1, hy.2⟩⟩
-  | deliver toX k =>
+  | deliver toX k ridx =>
     cases toX <;> simp only [St.step, St.get, St.set, Bool.not_true, Bool.not_false, if_true, if_false, Bool.false_eq_true]
     · split
       · exact ⟨hx, hy⟩
       · rename_i m hk
-        have := step_inv_side s.y s.x s.fresh hy hx k m hk
+        have := step_inv_side s.y s.x ridx hy hx k m hk
         exact ⟨this.2, this.1⟩
     · split
       · exact ⟨hx, hy⟩
       · rename_i m hk
-        have := step_inv_side s.x s.y s.fresh hx hy k m hk
+        have := step_inv_side s.x s.y ridx hx hy k m hk
         exact ⟨this.1, this.2⟩
   | drop toX k =>
     cases toX <;> simp only [St.step, St.get, St.set, if_true, if_false, Bool.false_eq_true]
@@ -367,10 +363,10 @@ theorem stepAll_inv (s : St) (st : Step) (h : Inv s) : Inv (s.stepAll st) := by
     · have c := check_shrink s.x s.y j i o
       have := paired_shrink s.x (s.x.check s.y j i o) s.y c.1 c.2.1 (fun m hm => c.2.2.1 ▸ hm) hx hy
       exact ⟨this.1, this.2⟩
-  | start onX => exact step_inv s _ h
+  | start onX hs idx => exact step_inv s _ h
   | resend onX => exact step_inv s _ h
   | giveUp onX => exact step_inv s _ h
-  | deliver toX k => exact step_inv s _ h
+  | deliver toX k r => exact step_inv s _ h
   | drop toX k => exact step_inv s _ h
   | swap onX j => exact step_inv s _ h
   | del onX j => exact step_inv s _ h
